@@ -69,6 +69,30 @@ def run(ctx):
     ctx.floor("TAB-BOOL", 1)
 
 
+def _sign_test(c, LN, ty, uty, max_pos, max_neg):
+    """A sign test on the accumulator reinterpreted in the signed type says where the (unsigned, same width) accumulator n lies:
+         (n as T) < 0  <=>  n > MAX          (n as T) >= 0  <=>  n <= MAX
+         (n as T).wrapping_neg() > 0  <=>  n > |MIN|      (n as T).wrapping_neg() <= 0  <=>  n <= |MIN|
+    (two's complement: n as T is negative from 2^(bits-1) on; wrapping_neg maps MIN to itself and flips every other sign).
+    The tests whose meaning is a disjunction of ranges are left as they are (and are then not understood by the table)."""
+    if c[0] not in ("lt", "le"):
+        return c
+    C = ("cast", "int2int", ty, LN)
+    W = ("call", "core::num::<impl %s>::wrapping_neg" % ty, None, C)
+    Z = ("int", 0, ty)
+    KP, KN = ("int", max_pos, uty), ("int", max_neg, uty)
+    a, b = c[1], c[2]
+    if c[0] == "lt" and (a, b) == (C, Z):
+        return lt(KP, LN)
+    if c[0] == "le" and (a, b) == (Z, C):
+        return le(LN, KP)
+    if c[0] == "lt" and (a, b) == (Z, W):
+        return lt(KN, LN)
+    if c[0] == "le" and (a, b) == (W, Z):
+        return le(LN, KN)
+    return c
+
+
 def integer(ctx, prog, F, b, ty):
     cfg = prog.config
     key = "%s|parse_%s" % (cfg, ty)
@@ -222,7 +246,8 @@ def integer(ctx, prog, F, b, ty):
         proj = []
         seen = set()
         for p in exits:
-            conds = tuple(c for c in p.conds if c[0] in ("lt", "le", "eq", "ne") and LN in (c[1], c[2]))
+            conds = tuple(_sign_test(table.strip_gargs(c), LN, ty, uty, max_pos, max_neg) if signed else c for c in p.conds)
+            conds = tuple(c for c in conds if c[0] in ("lt", "le", "eq", "ne") and LN in (c[1], c[2]))
             sig = (conds, repr(p.value))
             if sig in seen:
                 continue
